@@ -153,6 +153,18 @@ def Membrane.afterRate (env : Env) (m : Membrane) (c : Str) (rc : Bool × List N
 def Membrane.filter (env : Env) (m : Membrane) (now : Nat) (c : Str) : Membrane × FilterOut :=
   m.afterRate env c (rateCheck m now)
 
+/-- Several `filter` calls at one instant, one after the other in the listed order, call `i` under its own
+    environment `envOf i`.  This is what `par` lines of the protocol mean in the model: the calls of concurrent
+    threads, serialised in the order in which the threads passed through the critical section of
+    `_check_rate_limit` (see `Operon/Model/RateConc.lean` for the statement-level model of that section and
+    `c10_rate_check_linearizable` for why the serial order is faithful). -/
+def Membrane.filterSeq (envOf : Nat → Env) (m : Membrane) (now : Nat) :
+    List (Nat × Str) → Membrane × List (Nat × FilterOut)
+  | [] => (m, [])
+  | (i, c) :: rest =>
+    ((Membrane.filterSeq envOf (m.filter (envOf i) now c).1 now rest).1,
+     (i, (m.filter (envOf i) now c).2) :: (Membrane.filterSeq envOf (m.filter (envOf i) now c).1 now rest).2)
+
 /-- `learn_threat`: constructs the signature (compiling a regex may raise `re.error`), stores it only when
     adaptive immunity is enabled. -/
 def Membrane.learn (env : Env) (m : Membrane) (s : Sig) : Membrane × Out Unit :=
